@@ -159,13 +159,25 @@ UNITS['U12k'] = dict(
     assumptions=['OrderedFloat total order is executed by CBMC, not assumed'],
     not_covered=['Comparator<Option<OrderedFloat<f64>>> for CmpGreaterThan: not instantiated by the planner (design-time probe H7); reported, not claimed'])
 
+UNITS['U20k'] = dict(
+    kind='kani', crate='kani/U20', needs_lock=True,
+    title='type_conversion.rs: widening Cast impls (u8/u16/u32 -> i64/u64/of64, i64 -> of64, * -> Val) (complete)',
+    harnesses=[dict(name='proofs::%s' % n, clause=c, fn=n) for n, c in [
+        ('u8_to_i64', 'value preserved'), ('u16_to_i64', 'value preserved'), ('u32_to_i64', 'value preserved'),
+        ('u8_to_u64', 'value preserved'), ('u16_to_u64', 'value preserved'), ('u32_to_u64', 'value preserved'),
+        ('u8_to_f64', 'exact, never NULL marker'), ('u16_to_f64', 'exact, never NULL marker'), ('u32_to_f64', 'exact, never NULL marker'),
+        ('i64_to_f64', 'I64_NULL -> F64_NULL, other values `as f64`, never the NULL marker'),
+        ('ints_to_val', 'Val::Integer(value)'), ('float_to_val', 'F64_NULL -> Val::Null, else bit-exact'), ('opt_str_to_val', 'None -> Val::Null')]]
+    + [dict(name='proofs::vx_canary', expect_fail=True)],
+    assumptions=[], not_covered=['narrowing casts (`as u8` ...) and Val -> integer casts (panic arms)', 'i64 -> f64 rounding for |v| > 2^53 is inherent to the documented degrade'])
+
 PROPS = {
-    'C02': dict(level='proof', units=['U10', 'U09k', 'U09m', 'U13k'],
+    'C02': dict(level='proof', units=['U10', 'U09k', 'U09m', 'U13k', 'U20k'],
                 level_text='Verus proofs of the merge kernels that combine per-partition results (sorted, provenance, left-biased, nothing skipped), complete Kani proofs of cross-partition aggregate combination and limit arithmetic',
                 level_note='per-partition planning, executor streaming, disk read scheduling and thread count are glue and not covered: the check catches a broken merge/combine primitive, not a broken plan',
                 technique='contract-based deductive verification (Verus + Kani complete harnesses) of extracted functions',
                 assumptions=[], not_covered=['executor stage partitioning / streaming', 'batch_merging::combine plan construction', 'disk read scheduler']),
-    'C04': dict(level='proof', units=['U09k', 'U09v', 'U09m', 'U10', 'U19', 'U01'],
+    'C04': dict(level='proof', units=['U09k', 'U09v', 'U09m', 'U10', 'U19', 'U20k', 'U01'],
                 level_text='complete Kani proofs of accumulate/combine kernels; Verus proofs of dedup-merge / merge_drop / merge_keep kernels and bitmap primitives',
                 level_note='grouping-key construction, hash-map grouping and the final pass are not covered',
                 technique='contract-based deductive verification (Verus + Kani complete harnesses) of extracted functions',
